@@ -594,3 +594,8 @@ for _p in ("C03", "C10"):
 PROPS["C14"]["proofs"] = PROPS["C14"]["proofs"] + ["Bmc.Proofs.EndToEnd.WalkC14"]
 PROPS["C14"]["claim"] += (" END TO END: generated_walkSDRs_complete (Proofs/EndToEnd/WalkC14.lean) — walkSDRs AS TRANSLATED ON THIS RUN returns exactly the Full Sensor "
                           "Records of any well-formed repository held by the conforming device, each under its own ID.")
+for _p in ("C07", "C17"):
+    PROPS[_p]["proofs"] = PROPS[_p]["proofs"] + ["Bmc.Proofs.EndToEnd.DecodeC07", "Bmc.Proofs.EndToEnd.DecodeSetupC07"]
+    PROPS[_p]["claim"] += (" END TO END: generated_*_decodes (Proofs/EndToEnd/DecodeC07.lean, DecodeSetupC07.lean; 26 decoders) — each DecodeFromBytes AS TRANSLATED FROM THE "
+                           "SOURCE ON THIS RUN, started from ANY previous receiver content on ANY Go slice (any capacity, any bytes beyond len) whose visible bytes are the "
+                           "specification's encoding of a well-formed value, returns exactly that value's view.")
